@@ -23,7 +23,9 @@ RULE = ("documents: (a) every document of <=3 (quick) / <=4 (thorough) elements 
         "structure, attributes, list values) applied to the copy (original re-inspected) and to the original (copy "
         "re-inspected); equality on all ordered pairs of pools of near-identical trees (one name / attribute / "
         "attribute order / value type / child / string class / position changed); pickle round trips of documents "
-        "(protocols 2 and highest) and of tags. Non-trivial: the element is a tag with attributes or children. "
+        "(protocols 2 and highest) and of tags; multi-step chains (3-8 steps of copy / deepcopy / pickle round trip / "
+        "structure edit / attribute edit, fixed patterns such as pickle-edit-pickle plus seeded random ones), every copy or "
+        "pickle step checked against the document it was applied to as it is at that moment. Non-trivial: the element is a tag with attributes or children. "
         "Distinct by (document recipe, element, check).")
 ASSUMPTIONS = [
     "pickle / copy module mechanics (__reduce_ex__, __getnewargs__, memo) are the interpreter's; Tag pickling (generic object pickling of the connected graph) is measured, not modelled",
@@ -570,7 +572,7 @@ def rendered(v):
     return "" if v is None else str(v)
 
 
-def norm_sig(e, norm, pwset, pw=False):
+def norm_sig(e, norm, pwset, pw=False, loose=False):
     """Signature up to the re-parse normalisations of C05 (norm=True: adjacent default-class strings merged, empty
     ones dropped, a newline after a doctype, whitespace-only runs outside whitespace-preserving tags collapsed)."""
     if not isinstance(e, Tag):
@@ -579,9 +581,12 @@ def norm_sig(e, norm, pwset, pw=False):
     pw = pw or (e.name in pwset)
     for c in e.contents:
         if isinstance(c, Tag):
-            kids.append(norm_sig(c, norm, pwset, pw))
+            kids.append(norm_sig(c, norm, pwset, pw, loose))
             continue
-        k = ("s", "plain" if type(c) in PLAIN else type(c).__name__, str(c))
+        # loose: every string class that is written as bare text counts as text (a copied document is re-parsed under
+        # the builder's own string classes: BeautifulSoup.copy_self does not carry element_classes over)
+        k = ("s", "plain" if (type(c) in PLAIN or (loose and not type(c).PREFIX and not type(c).SUFFIX)) else type(c).__name__,
+             str(c))
         if norm and k[1] == "plain" and k[2] == "":
             continue
         kids.append(k)
@@ -715,6 +720,118 @@ def pickle_one(ctx, recipe, tags=True):
 
 
 # ------------------------------------------------------------------------------------------------
+# multi-step sequences: copy / deepcopy / pickle round trip / edit, each step applied to the RESULT of the step before
+# (a document that came out of a pickle or of a copy must behave like any other document afterwards)
+# ------------------------------------------------------------------------------------------------
+CHAIN_KINDS = ["pickle", "pickle", "pickle-highest", "copy", "deepcopy", "edit", "edit", "attrs"]
+CHAIN_PATTERNS = [["pickle", "edit", "pickle"], ["pickle", "attrs", "pickle-highest"], ["pickle", "pickle", "edit", "pickle"],
+                  ["copy", "edit", "pickle", "edit", "pickle"], ["pickle", "copy", "edit", "pickle"],
+                  ["pickle", "edit", "copy", "pickle"], ["deepcopy", "attrs", "deepcopy", "edit", "copy"],
+                  ["pickle", "edit", "deepcopy", "edit", "pickle-highest", "edit", "pickle"]]
+
+
+def representable_doc(soup):
+    return not any(t.can_be_empty_element and t.contents for t in soup.find_all(True))
+
+
+def chain_one(ctx, recipe):
+    """recipe: {"kind": "chain", "config", "markup", "steps": [[kind, seed], ...]}. Every copy / pickle step is checked
+    against the document it was applied to, as that document is at that moment."""
+    with warnings.catch_warnings():
+        warnings.simplefilter("ignore")
+        kw = dict(L.CONFIGS)[recipe["config"]]
+        doc = L.parse(recipe["markup"], kw)
+        history = []
+        for si, (kind, seed) in enumerate(recipe["steps"]):
+            case = {"recipe": recipe, "step": si, "step_kind": kind, "steps_so_far": history + [kind]}
+            ctx.case(("chain", repr(recipe), si), nontrivial=(si > 0))
+            if kind == "edit":
+                L.safe_edits(random.Random(seed), doc, 1 + seed % 3)
+            elif kind == "attrs":
+                L.mutate_attrs(random.Random(seed), doc, 2, raw=False)
+            elif kind in ("copy", "deepcopy"):
+                try:
+                    c = (copy.copy if kind == "copy" else copy.deepcopy)(doc)
+                except Exception as e:
+                    ctx.fail(case, "%s of a document raised %s" % (kind, type(e).__name__), repr(e)[:200], None, tag="chain-copy")
+                    return
+                d = L.sig_diff(L.sig(doc), L.sig(c))
+                if d:
+                    ctx.fail(case, "after these steps the copy differs from the document it was made from: " + d, None, None,
+                             tag="chain-copy")
+                if not (c == doc) or (c != doc) or hash(c) != hash(doc) or c.decode() != doc.decode():
+                    ctx.fail(case, "after these steps the copy does not equal / hash / render like the document it was made from",
+                             c.decode(), doc.decode(), tag="chain-copy")
+                for b in L.detached_problems(c):
+                    ctx.fail(case, "copy is attached / inconsistent: " + b, None, None, tag="chain-copy")
+                a, b = L.objects_of(doc), L.objects_of(c)
+                if a[0] & b[0] or a[1] & b[1] or a[2] & b[2]:
+                    ctx.fail(case, "copy shares objects with the document it was made from", None, None, tag="chain-copy")
+                doc = c
+            else:
+                if not representable_doc(doc):
+                    ctx.count("chain_stopped_not_representable")
+                    return
+                proto = pickle.HIGHEST_PROTOCOL if kind == "pickle-highest" else 2
+                pws = tuple(doc.builder.preserve_whitespace_tags or ())
+                try:
+                    u = pickle.loads(pickle.dumps(doc, proto))
+                except Exception as e:
+                    ctx.fail(case, "pickling a document raised %s" % type(e).__name__, repr(e)[:200], None, tag="chain-pickle")
+                    return
+                exp = norm_sig(doc, True, pws, loose=True)
+                got = norm_sig(u, False, pws, loose=True)
+                if got != exp:
+                    ctx.fail(case, "after these steps the unpickled document differs from the document that was pickled by more "
+                                   "than the re-parse normalisations", {"unpickled": u.decode(), "tree": got},
+                             {"pickled": doc.decode(), "tree": exp}, tag="chain-pickle")
+                if bool(u == doc) != L.ref_eq(u, doc):
+                    ctx.fail(case, "== between a document and its unpickled form is not structural", u == doc, L.ref_eq(u, doc),
+                             tag="chain-pickle")
+                a, b = L.objects_of(doc), L.objects_of(u)
+                if a[0] & b[0] or a[1] & b[1] or a[2] & b[2]:
+                    ctx.fail(case, "unpickled document shares objects with the pickled one", None, None, tag="chain-pickle")
+                for attr in BUILDER_OPTS:
+                    if getattr(u.builder, attr, None) != getattr(doc.builder, attr, None):
+                        ctx.fail(case, "builder option %s did not survive pickling" % attr, None, None, tag="chain-pickle")
+                # a second dump of the same, unedited object gives the same document again
+                u2 = pickle.loads(pickle.dumps(doc, proto))
+                if norm_sig(u2, False, pws, loose=True) != got:
+                    ctx.fail(case, "pickling the same document twice gives two different documents", None, None, tag="chain-pickle")
+                doc = u
+            history.append(kind)
+            if len(ctx.failures) > 40:
+                return
+        # the end of the chain is a document like any other: an element of it copies correctly
+        tags = doc.find_all(True)
+        if tags:
+            x = tags[len(tags) // 2]
+            c = copy.copy(x)
+            d = L.sig_diff(L.sig(x), L.sig(c))
+            if d or not (c == x) or c.decode() != x.decode():
+                ctx.fail({"recipe": recipe, "step": len(recipe["steps"]), "step_kind": "copy of an element of the final document"},
+                         "element of a document at the end of a copy/pickle/edit chain does not copy correctly: %s" % d,
+                         c.decode(), x.decode(), tag="chain-copy")
+
+
+def chain_cases(ctx, rng, count):
+    for it in range(count):
+        cname, kw = L.CONFIGS[it % len(L.CONFIGS)]
+        markup = L.random_markup(rng, 10)
+        if it < len(CHAIN_PATTERNS) * 2:
+            kinds = CHAIN_PATTERNS[it % len(CHAIN_PATTERNS)]
+        else:
+            kinds = [rng.choice(CHAIN_KINDS) for _ in range(rng.randint(3, 7))]
+        recipe = {"kind": "chain", "config": cname, "markup": markup,
+                  "steps": [[k, rng.randrange(1 << 30)] for k in kinds]}
+        chain_one(ctx, recipe)
+        if it == 0:
+            ctx.sample({"copy_pickle_edit_chain": recipe})
+        if len(ctx.failures) > 40:
+            return
+
+
+# ------------------------------------------------------------------------------------------------
 # corpus: witnesses of the two defects repaired for this property (a regression is reported)
 # ------------------------------------------------------------------------------------------------
 def corpus(ctx):
@@ -796,6 +913,7 @@ def run(ctx):
             return
     equality_pools(ctx, rng)
     pickle_cases(ctx, rng, 240 if ctx.thorough else 45)
+    chain_cases(ctx, rng, 600 if ctx.thorough else 60)
 
 
 # ------------------------------------------------------------------------------------------------
@@ -812,6 +930,8 @@ def replay(ctx, data):
         warnings.simplefilter("ignore")
         if "corpus" in case:
             corpus(c)
+        elif case.get("recipe", {}).get("kind") == "chain":
+            chain_one(c, case["recipe"])
         elif "pickle_protocol" in case or case.get("pickle") == "tag":
             pickle_one(c, case["recipe"])
         elif case.get("recipe", {}).get("kind") == "pool":
